@@ -204,7 +204,28 @@ def o_output_conv(X):
     return {'v': X[0] - X[1], 'w0': X[0], 'w1': X[0] - X[1]}
 
 
+async def p_zero_share(party, X, api):
+    """PRSS zero sharings (degree 2t, secret 0) as used by the small-field zero tests and random_bits, added to a product before opening"""
+    mpc = api.mpc
+    a, b = api.inp(X, 0), api.inp(X, 1)
+    F = api.F
+    if mpc.options.no_prss:
+        return {'y': await api.out(a * b)}
+    m = len(mpc.parties)
+    prfs = mpc.prfs(F.order)
+    z = party.thresha.pseudorandom_share_zero(F, m, mpc.pid, prfs, mpc._prss_uci(), 2)
+    sa, sb = await mpc.gather(a, b)
+    c = F(sa.value * sb.value + z[0].value)           # degree-2t sharing of a*b, re-randomised
+    y = await mpc.output(c, threshold=2 * mpc.threshold)
+    return {'z0': ('share2t', z[0].value), 'z1': ('share2t', z[1].value), 'y': ('out', y.value)}
+
+
+def o_zero_share(X):
+    return {'y': X[0] * X[1], 'z0': 0, 'z1': 0}
+
+
 CORPUS = {
+    'zero_share': (p_zero_share, o_zero_share),
     'mul_add': (p_mul_add, o_mul_add),
     'linear': (p_linear, o_linear),
     'in_prod': (p_in_prod, o_in_prod),
@@ -568,6 +589,8 @@ def run_program(env, m, t, prss, name, l=L, instrument=None, sim_hook=None):
         env.assume(in_range(env, X[0] * X[0], l), note='intermediate products stay within l bits')
     if name == 'zero_public':
         env.assume(in_range(env, X[0] * X[1], l) & in_range(env, X[0] - X[1], l), note='intermediate values stay within l bits')
+    if name == 'zero_share':
+        env.assume(in_range(env, X[0] * X[1], l), note='intermediate values stay within l bits')
     args = ['-K', '30'] + ([] if prss else ['--no-prss'])
     sim = simnet.Sim(env, m, t, args)
     if instrument:
@@ -632,6 +655,15 @@ def assert_sharing(env, run, t):
     m = len(run['results'])
     xs = list(range(1, m + 1))
     for lab, (kind, _) in run['results'][0].items():
+        if kind == 'share2t':
+            # zero sharing: all m shares on one polynomial of degree <= 2t with constant term 0 (needs m >= 2t+1 points, m > 2t+1 for a degree condition)
+            ys = [run['results'][pid][lab][1] for pid in range(m)]
+            d = 2 * t
+            for j in range(d + 1, m):
+                env.eq_mod(f'{lab}:degree<=2t@{j}', interp(xs[:d+1], ys[:d+1], xs[j], p), ys[j], p)
+            if m >= d + 1:
+                env.eq_mod(f'{lab}:secret_zero', interp(xs[:d+1], ys[:d+1], 0, p), 0, p)
+            continue
         if kind != 'share':
             continue
         ys = [run['results'][pid][lab][1] for pid in range(m)]
